@@ -364,3 +364,63 @@ def check(ctx, run):  # noqa: F811
     module_rules(ctx, run)
     if ctx.tier == "thorough":
         module_level(ctx, run)
+
+
+def autogreek_signature_rule(ctx, run):
+    """R4 (pricer signatures): vega is dP/d(volatility) whatever the pricer is parameterised by.  Probed with pricers that accept only
+    `variance`, only `volatility`, and the spot family one name at a time: the differentiation leaf is the volatility (resp. the spot) and the
+    argument the pricer does accept is re-derived from that leaf (variance = leaf^2, moneyness = leaf / strike, ...)."""
+    prog, interp = ctx.prog, ctx.interp
+    run.require("C08.R4s", 3)
+    K = _W.fl("K")
+    probes = [
+        ("vega", "def pricer_var(spot=None, variance=None, time_to_maturity=None):\n    return (spot, variance, time_to_maturity)\n",
+         dict(spot=_W.tensor("S"), variance=_W.tensor("var"), time_to_maturity=_W.tensor("ttm")), _Op("sqrt", (_Op("relu", (_W.tensor("var"),)),)), 1, lambda L: _Op("square", (L,)), "variance = volatility^2"),
+        ("vega", "def pricer_var(spot=None, variance=None, time_to_maturity=None):\n    return (spot, variance, time_to_maturity)\n",
+         dict(spot=_W.tensor("S"), volatility=_W.tensor("vol"), time_to_maturity=_W.tensor("ttm")), _W.tensor("vol"), 1, lambda L: _Op("square", (L,)), "variance = volatility^2"),
+        ("delta", "def pricer_lm(log_moneyness=None, volatility=None, time_to_maturity=None):\n    return (log_moneyness, volatility, time_to_maturity)\n",
+         dict(spot=_W.tensor("S"), strike=K, volatility=_W.tensor("vol"), time_to_maturity=_W.tensor("ttm")), _W.tensor("S"), 0, lambda L: _Op("log", (_Op("div", (L, K)),)), "log_moneyness = log(spot / strike)"),
+    ]
+    for g, src, kw, leaf_src, pos, derived, what in probes:
+        fi = prog.functions.get("pfhedge.autogreek." + g)
+        if fi is None:
+            raise AnalysisError(f"anchor vanished: pfhedge.autogreek.{g}")
+        pricer = _FuncInfo("synthetic." + src.split("(")[0][4:], "pfhedge.autogreek", _ast.parse(src).body[0])
+        res = [r for r in interp.explore(fi, [pricer], dict(kw)) if not r["raises"]]
+        problems = []
+        if len(res) != 1:
+            problems.append(f"{len(res)} paths")
+        else:
+            grads = [s for s in _walk(res[0]["value"]) if isinstance(s, _Op) and s.op == "autograd_grad"]
+            inner = grads[-1] if grads else None
+            if inner is None:
+                problems.append("no autograd.grad")
+            else:
+                leaf = inner.kwd().get("inputs")
+                if not _leaf(leaf) or not _same(_norm(leaf), leaf_src):
+                    problems.append(f"differentiation leaf is {str(_norm(leaf))[:60]}, expected {leaf_src}: the result is not d price / d {'volatility' if g == 'vega' else 'spot'}")
+                price = inner.args[0]
+                if isinstance(price, tuple) and len(price) == 3:
+                    x = price[pos]
+                    if not (isinstance(x, (_Op, _Sym)) and any(y == leaf for y in _walk(x)) and _same(_norm(x), _norm(derived(leaf)))):
+                        problems.append(f"the pricer's argument is not re-derived from the leaf ({what})")
+                else:
+                    problems.append("pricer was not called with the parameters it accepts")
+        label = f"autogreek.{g} with a pricer({', '.join(a.arg for a in pricer.node.args.args)}) given {', '.join(sorted(kw))}"
+        ok = not problems
+        run.oblige("C08.R4s", label, ok, "; ".join(problems))
+        if not ok:
+            run.fail(Finding("C08.R4s", fi.qualname, f"{label}: {'; '.join(problems)}"[:400], "the automatic Greek must be the derivative w.r.t. volatility / spot for every pricer parameterisation",
+                             file=str(prog.modules[fi.module].path), line=fi.node.lineno))
+
+
+_check_before_precision = check
+
+
+def check(ctx, run):  # noqa: F811
+    _check_before_precision(ctx, run)
+    autogreek_signature_rule(ctx, run)
+    from ..precision import closed_form_precision_rule
+    run.require("C08.R6", 12)
+    closed_form_precision_rule(ctx, run, "C08.R6", ["npdf", "ncdf", "d1", "d2"] + [f"bs_{fam}_{g}" for fam in ("european", "european_binary", "american_binary") for g in ("delta", "gamma", "vega", "theta")],
+                               "float parameters and constants reach the closed-form Greek unrounded")
